@@ -4,8 +4,9 @@ injective at 0, the remainder is additive over equal-length bit strings, short s
 their own remainder.  Core Lean only.
 -/
 import Rs1090.Spec.Crc
+import Rs1090.Model.Basic
 namespace Rs1090.Proofs.Crc
-open Rs1090.Spec.Crc
+open Rs1090 Rs1090.Spec.Crc
 
 /-! ### the register step -/
 
@@ -254,5 +255,100 @@ theorem polyMod_short_ne_zero (bs : List Bool) (hl : bs.length ≤ 24) (h : true
   rw [hz] at this
   have := valBE_pos bs h
   simp at *; omega
+
+/-! ### error patterns -/
+
+/-- a non-zero pattern confined to a window of at most 24 consecutive positions has a
+    non-zero syndrome, wherever the window lies and however long the string is -/
+theorem burst_syndrome_ne_zero (a c : Nat) (p : List Bool) (hl : p.length ≤ 24) (hp : true ∈ p) :
+    polyMod (zeros a ++ p ++ zeros c) ≠ 0#24 := by
+  rw [polyMod_append_zeros, polyMod_zeros_append]
+  exact stepN_ne_zero _ _ (polyMod_short_ne_zero p hl hp)
+
+/-- the pattern `x^d + 1`: two errors `d` positions apart -/
+def pair (d : Nat) : List Bool := true :: (zeros (d - 1) ++ [true])
+
+def pairOk (d : Nat) : Bool := d == 0 || d > 111 || polyMod (pair d) != 0#24
+
+/-- `x^d + 1` is not a multiple of the generator for d = 1 … 111 (kernel computation, 111 long
+    divisions) -/
+theorem pair_ne_zero (d : Nat) (h1 : 1 ≤ d) (h2 : d ≤ 111) : polyMod (pair d) ≠ 0#24 := by
+  have h : allBits pairOk 7 0 = true := by decide +kernel
+  have := forall_lt_of_allBits pairOk 7 h d (by omega)
+  simp only [pairOk, Bool.or_eq_true, beq_iff_eq, decide_eq_true_eq, bne_iff_ne] at this
+  rcases this with (h | h) | h
+  · omega
+  · omega
+  · exact h
+
+theorem double_syndrome_ne_zero (a d c : Nat) (h1 : 1 ≤ d) (h2 : d ≤ 111) :
+    polyMod (zeros a ++ pair d ++ zeros c) ≠ 0#24 := by
+  rw [polyMod_append_zeros, polyMod_zeros_append]
+  exact stepN_ne_zero _ _ (pair_ne_zero d h1 h2)
+
+/-! ### bytes and bits -/
+
+theorem bitsN_length (n v : Nat) : (bitsN n v).length = n := by
+  induction n with
+  | zero => rfl
+  | succ n ih => simp [bitsN, ih]
+
+theorem bits8_length (b : Nat) : (bits8 b).length = 8 := bitsN_length 8 b
+
+theorem bits_length (bs : List Nat) : (bits bs).length = 8 * bs.length := by
+  induction bs with
+  | nil => rfl
+  | cons b bs ih => simp [bits, bits8_length, ih]; omega
+
+theorem bits_append (xs ys : List Nat) : bits (xs ++ ys) = bits xs ++ bits ys := by
+  induction xs with
+  | nil => rfl
+  | cons x xs ih => simp [bits, ih]
+
+theorem bitsN_xor (n a b : Nat) : bitsN n (a ^^^ b) = xorBits (bitsN n a) (bitsN n b) := by
+  induction n with
+  | zero => rfl
+  | succ n ih => simp [bitsN, xorBits, Nat.testBit_xor] at *; exact ih
+
+theorem xorBits_append (a b c d : List Bool) (h : a.length = c.length) :
+    xorBits (a ++ b) (c ++ d) = xorBits a c ++ xorBits b d := by
+  simp [xorBits, List.zipWith_append h]
+
+theorem xorBits_zeros (n : Nat) : xorBits (zeros n) (zeros n) = zeros n := by
+  simp [xorBits, zeros]
+
+theorem xorBits_length (a b : List Bool) (h : a.length = b.length) : (xorBits a b).length = a.length := by
+  simp [xorBits, h]
+
+theorem valBE_bitsN (n v : Nat) : valBE (bitsN n v) = v % 2 ^ n := by
+  induction n with
+  | zero => simp [bitsN, valBE, Nat.mod_one]
+  | succ n ih =>
+    rw [bitsN, valBE_cons, ih, bitsN_length, Nat.toNat_testBit]
+    have := Nat.mod_pow_succ (x := v) (b := 2) (k := n)
+    rw [this, Nat.mul_comm]; omega
+
+theorem bits_pack : ∀ (bs : List Bool), bs.length % 8 = 0 → bits (pack bs) = bs := by
+  intro bs
+  fun_induction pack bs with
+  | case1 b7 b6 b5 b4 b3 b2 b1 b0 rest ih =>
+    intro h
+    have hr : rest.length % 8 = 0 := by simp at h; omega
+    rw [bits, ih hr]
+    have : bits8 (valBE [b7, b6, b5, b4, b3, b2, b1, b0]) = [b7, b6, b5, b4, b3, b2, b1, b0] := by
+      cases b7 <;> cases b6 <;> cases b5 <;> cases b4 <;> cases b3 <;> cases b2 <;> cases b1 <;> cases b0 <;> rfl
+    rw [this]; rfl
+  | case2 bs hne =>
+    intro h
+    match bs, hne, h with
+    | [], _, _ => rfl
+    | [_], _, h => simp at h
+    | [_, _], _, h => simp at h
+    | [_, _, _], _, h => simp at h
+    | [_, _, _, _], _, h => simp at h
+    | [_, _, _, _, _], _, h => simp at h
+    | [_, _, _, _, _, _], _, h => simp at h
+    | [_, _, _, _, _, _, _], _, h => simp at h
+    | _ :: _ :: _ :: _ :: _ :: _ :: _ :: _ :: _, hne, _ => exact absurd rfl (hne _ _ _ _ _ _ _ _ _)
 
 end Rs1090.Proofs.Crc
